@@ -262,3 +262,65 @@ def r6(c):
 def r7(c):
     from rules import c18
     c18.r1(c)
+
+
+def _self_field(b, o, name):
+    s_ = q.widened(b, o)
+    return q.sem_is_name(b, s_, 'self') and bool(s_.proj) and s_.proj[-1].endswith(':' + name)
+
+
+@rule('C04', 'R04.8', 'unpacking: bit k of a packed reply / request is bit (k % 8) of byte (k / 8); register k is bytes 2k (high) and 2k + 1 (low); the index reported is start + k')
+def r8(c):
+    P = c.P
+    b = P.fn('<rodbus::types::BitIterator as core::iter::traits::iterator::Iterator>::next')
+    c.saw(b, len(b.calls()))
+    get = one([cs for cs in b.calls() if cs.callee.endswith('::get')], 'bytes.get in BitIterator::next')
+    ix = q.widened(b, get.args[1])
+    okb = ix.kind == 'bin' and ((ix.extra[1] == 'Div' and q.int_value(b, ix.extra[3]) == 8) or (ix.extra[1] == 'Shr' and q.int_value(b, ix.extra[3]) == 3)) and _self_field(b, ix.extra[2], 'pos')
+    c.ob('bits/byte-index', okb, 'the byte read is bytes[pos / 8]', repr(ix) + (' %s' % (ix.extra[1:2],) if ix.kind == 'bin' else ''), get.loc())
+    shl = [(i, s) for i, s in b.assigns() if s['rv']['r'] == 'bin' and s['rv']['op'] == 'Shl' and q.int_value(b, s['rv']['a'][0]) == 1]
+    okm = len(shl) == 1
+    if okm:
+        amt = q.widened(b, shl[0][1]['rv']['a'][1])
+        okm = amt.kind == 'bin' and ((amt.extra[1] == 'Rem' and q.int_value(b, amt.extra[3]) == 8) or (amt.extra[1] == 'BitAnd' and q.int_value(b, amt.extra[3]) == 7)) and _self_field(b, amt.extra[2], 'pos')
+    c.ob('bits/mask', okm, 'the mask is 1 << (pos % 8)', '%d shifts of 1' % len(shl), loc_of(b))
+    if okm:
+        ands = [s for i, s in b.assigns() if s['rv']['r'] == 'bin' and s['rv']['op'] == 'BitAnd' and any(op_.get('pl', {}).get('l') == shl[0][1]['pl']['l'] for op_ in s['rv']['a'])]
+        okv = len(ands) == 1
+        if okv:
+            other = [a for a in ands[0]['rv']['a'] if a.get('pl', {}).get('l') != shl[0][1]['pl']['l']]
+            sv = q.sem(b, other[0]) if other else None
+            okv = sv is not None and sv.kind == 'call' and sv.cs is get and q.has_success(sv.proj)
+        c.ob('bits/value', okv, 'the bit reported is (that byte & mask) != 0', '', loc_of(b))
+    for nm, ty in (('bits', 'BitIterator'), ('registers', 'RegisterIterator')):
+        bb = P.fn('<rodbus::types::%s as core::iter::traits::iterator::Iterator>::next' % ty)
+        nw = one(bb.calls('rodbus::types::Indexed::new'), 'Indexed::new in %s::next' % ty)
+        ad = q.sem(bb, nw.args[0])
+        oka = ad.kind == 'bin' and ad.extra[1].startswith('Add') and sorted([_self_field(bb, ad.extra[2], 'start') * 1 + _self_field(bb, ad.extra[2], 'pos') * 2, _self_field(bb, ad.extra[3], 'start') * 1 + _self_field(bb, ad.extra[3], 'pos') * 2]) == [1, 2]
+        c.ob('%s/index' % nm, oka, 'the index reported is range.start + pos', repr(ad), nw.loc())
+        inc = [s for i, s in bb.assigns() if s['pl']['p'] and s['pl']['p'][-1].endswith(':pos')]
+        c.ob('%s/advance' % nm, len(inc) == 1 and (lambda v: v.kind == 'bin' and v.extra[1].startswith('Add') and q.int_value(bb, v.extra[3]) == 1 and _self_field(bb, v.extra[2], 'pos'))(q.sem(bb, inc[0]['rv']['a'][0]) if inc[0]['rv']['r'] == 'use' else q.Sem('other')),
+             'pos advances by one per item', '%d stores' % len(inc), loc_of(bb))
+    r = P.fn('<rodbus::types::RegisterIterator as core::iter::traits::iterator::Iterator>::next')
+    c.saw(r, len(r.calls()))
+    g2 = one([cs for cs in r.calls() if cs.callee.endswith('::get')], 'bytes.get in RegisterIterator::next')
+    rng = q.sem(r, g2.args[1])
+    okr = rng.kind == 'agg' and 'Range' in str(rng.extra.get('adt', '')) and len(rng.extra['a']) == 2
+    if okr:
+        st = q.sem(r, rng.extra['a'][0])
+        en = q.sem(r, rng.extra['a'][1])
+        def twice_pos(v):
+            return v.kind == 'bin' and v.extra[1].startswith('Mul') and ((q.int_value(r, v.extra[2]) == 2 and _self_field(r, v.extra[3], 'pos')) or (q.int_value(r, v.extra[3]) == 2 and _self_field(r, v.extra[2], 'pos')))
+        okr = twice_pos(st) and en.kind == 'bin' and en.extra[1].startswith('Add') and q.int_value(r, en.extra[3]) == 2 and twice_pos(q.sem(r, en.extra[2]))
+    c.ob('registers/bytes', okr, 'register k is read from bytes[2k .. 2k + 2]', repr(rng), g2.loc())
+    ors = [s for i, s in r.assigns() if s['rv']['r'] == 'bin' and s['rv']['op'] == 'BitOr']
+    okw = len(ors) == 1
+    if okw:
+        hi, lo = q.sem(r, ors[0]['rv']['a'][0]), q.sem(r, ors[0]['rv']['a'][1])
+        if not (hi.kind == 'bin' and hi.extra[1] == 'Shl'):
+            hi, lo = lo, hi
+        def elem(v, k):
+            v = q.widened(r, v)
+            return v.kind == 'call' and v.cs is g2 and any(p.startswith('cidx:%d' % k) or p == 'index:%d' % k for p in v.proj)
+        okw = hi.kind == 'bin' and hi.extra[1] == 'Shl' and q.int_value(r, hi.extra[3]) == 8 and elem(hi.extra[2], 0) and elem(lo, 1)
+    c.ob('registers/big-endian', okw, 'the value is (bytes[2k] << 8) | bytes[2k + 1]', '%d BitOr' % len(ors), loc_of(r))
